@@ -1052,4 +1052,290 @@ example : (World.run {} [.query true [1], .deliver false, .deliver true, .delive
       .send true [104, 105], .deliver false]).getLast? =
     some (some (.recv { out := [104, 105], enc := true } true [])) := by decide
 
+
+/-! ## the whole API: no call ever panics -/
+
+/-- `Inv` plus "`c.smp.saved` is an SMP1 message" -/
+def FullInv (p : Party) : Prop := AkeInv p ∧ SlotInv p.slots ∧ SavedInv p
+
+theorem fullInv_init (side : Nat) : FullInv { side := side } :=
+  ⟨(inv_init side).1, (inv_init side).2, fun t ht => by cases ht⟩
+
+theorem fullInv_of_keeps {p q : Party} (hk : Keeps p q) (h : FullInv p) : FullInv q :=
+  ⟨akeInv_of_view hk.view h.1, hk.slots h.2.1, hk.saved h.2.2⟩
+
+theorem fullInv_recv (p : Party) (h : FullInv p) (i : In) :
+    p.recv i ≠ .panic ∧ ∀ p' o, p.recv i = .ok (p', o) → FullInv p' := by
+  refine ⟨recv_no_panic p ⟨h.1, h.2.1⟩ i, fun p' o hr => ?_⟩
+  have hi := inv_recv p ⟨h.1, h.2.1⟩ i p' o hr
+  exact ⟨hi.1, hi.2, savedInv_recv p i h.2.1 h.2.2 p' o hr⟩
+
+theorem fullInv_recvBytes (p : Party) (h : FullInv p) (orc : Oracle) (inp : Bytes) :
+    p.recvBytes orc inp ≠ .panic ∧ ∀ p' o, p.recvBytes orc inp = .ok (p', o) → FullInv p' := by
+  unfold Party.recvBytes
+  have hfs : ∀ fs, FullInv { p with fs := fs } := fun fs => h
+  generalize (frontEnd p.fs inp) = r
+  obtain ⟨fs, fo⟩ := r
+  cases fo with
+  | err =>
+    dsimp only
+    refine ⟨(fun e => by cases e), ?_⟩
+    intro p' o hr
+    simp only [R.ok.injEq, Prod.mk.injEq] at hr
+    obtain ⟨rfl, _⟩ := hr
+    exact hfs fs
+  | nothing =>
+    dsimp only
+    refine ⟨(fun e => by cases e), ?_⟩
+    intro p' o hr
+    simp only [R.ok.injEq, Prod.mk.injEq] at hr
+    obtain ⟨rfl, _⟩ := hr
+    exact hfs fs
+  | msg m =>
+    dsimp only
+    exact fullInv_recv _ (hfs fs) _
+
+theorem fullInv_recvMsg (p : Party) (h : FullInv p) (qdg : Bytes) (m : Msg) :
+    p.recvMsg qdg m ≠ .panic ∧ ∀ p' o, p.recvMsg qdg m = .ok (p', o) → FullInv p' := by
+  cases m with
+  | raw b => exact fullInv_recvBytes p h _ b
+  | commit x dg => simp only [Party.recvMsg]; exact fullInv_recv p h _
+  | key y => simp only [Party.recvMsg]; exact fullInv_recv p h _
+  | reveal x y k => simp only [Party.recvMsg]; exact fullInv_recv p h _
+  | sig y x k => simp only [Party.recvMsg]; exact fullInv_recv p h _
+  | data d => simp only [Party.recvMsg]; exact fullInv_recv p h _
+
+/-- **authenticate_no_panic.** `Authenticate` returns for every question / secret: its `generateData` calls
+    cannot fail (`genData_ok`), and `panic("SMP completed on the first message")` is unreachable because
+    `c.smp.saved` only ever holds an SMP1 message, which `processSMP` cannot complete. -/
+theorem authenticate_no_panic (p : Party) (h : FullInv p) (question secret : Bytes) :
+    p.authenticate question secret ≠ .panic ∧
+    ∀ p' o, p.authenticate question secret = .ok (p', o) → FullInv p' := by
+  obtain ⟨q, o, hq, hv, hs, hsv⟩ := authenticate_ok p question secret h.2.1 h.2.2
+  rw [hq]
+  refine ⟨(fun e => by cases e), fun p' o' hr => ?_⟩
+  simp only [R.ok.injEq, Prod.mk.injEq] at hr
+  obtain ⟨rfl, _⟩ := hr
+  exact ⟨akeInv_of_view hv h.1, hs, hsv⟩
+
+theorem fullInv_send (p : Party) (h : FullInv p) (text : Bytes) :
+    p.send text ≠ .panic ∧ ∀ p' o, p.send text = .ok (p', o) → FullInv p' := by
+  unfold Party.send
+  split
+  · exact ⟨(fun e => by cases e), fun p' o hr => by
+      simp only [R.ok.injEq, Prod.mk.injEq] at hr; obtain ⟨rfl, _⟩ := hr; exact h⟩
+  · obtain ⟨q, m, hq, hk⟩ := genData_ok p text none h.2.1
+    rw [hq]
+    exact ⟨(fun e => by cases e), fun p' o hr => by
+      simp only [R.ok.injEq, Prod.mk.injEq] at hr; obtain ⟨rfl, _⟩ := hr; exact fullInv_of_keeps hk h⟩
+  · exact ⟨(fun e => by cases e), fun p' o hr => by
+      simp only [R.ok.injEq, Prod.mk.injEq] at hr; obtain ⟨rfl, _⟩ := hr; exact h⟩
+
+theorem fullInv_endConv (p : Party) (h : FullInv p) :
+    p.endConv ≠ .panic ∧ ∀ p' o, p.endConv = .ok (p', o) → FullInv p' := by
+  unfold Party.endConv
+  split
+  · exact ⟨(fun e => by cases e), fun p' o hr => by
+      simp only [R.ok.injEq, Prod.mk.injEq] at hr; obtain ⟨rfl, _⟩ := hr; exact h⟩
+  · have h' : FullInv { p with st := .plain } := h
+    obtain ⟨q, m, hq, hk⟩ := genData_ok { p with st := .plain } [] (some .disconnect) h.2.1
+    rw [hq]
+    exact ⟨(fun e => by cases e), fun p' o hr => by
+      simp only [R.ok.injEq, Prod.mk.injEq] at hr; obtain ⟨rfl, _⟩ := hr; exact fullInv_of_keeps hk h'⟩
+  · exact ⟨(fun e => by cases e), fun p' o hr => by
+      simp only [R.ok.injEq, Prod.mk.injEq] at hr; obtain ⟨rfl, _⟩ := hr; exact h⟩
+
+def World.Good (w : World) : Prop := FullInv w.a ∧ FullInv w.b
+
+theorem good_put (w : World) (isA : Bool) (p : Party) (out : List Msg) (hw : w.Good) (hp : FullInv p) :
+    (w.put isA p out).Good := by
+  unfold World.put
+  cases isA
+  · exact ⟨hw.1, hp⟩
+  · exact ⟨hp, hw.2⟩
+
+theorem good_party (w : World) (isA : Bool) (hw : w.Good) : FullInv (w.party isA) := by
+  unfold World.party; cases isA
+  · exact hw.2
+  · exact hw.1
+
+/-- one script step on a good world: no panic, and the world stays good -/
+theorem step_good (w : World) (hw : w.Good) (s : Step) :
+    w.step s ≠ .panic ∧ ∀ w' o, w.step s = .ok (w', o) → w'.Good := by
+  cases s with
+  | query isA dg =>
+    obtain ⟨h1, h2⟩ := fullInv_recv (w.party isA) (good_party w isA hw) (.query dg)
+    simp only [World.step]
+    cases hr : (w.party isA).recv (.query dg) with
+    | panic => exact absurd hr h1
+    | ok r =>
+      obtain ⟨p, o⟩ := r
+      refine ⟨(fun e => by cases e), fun w' o' he => ?_⟩
+      simp only [R.ok.injEq, Prod.mk.injEq] at he
+      obtain ⟨rfl, _⟩ := he
+      exact good_put w isA p _ hw (h2 p o hr)
+  | deliver isA =>
+    simp only [World.step]
+    cases hq : (if isA = true then w.toA else w.toB) with
+    | nil =>
+      refine ⟨(fun e => by cases e), fun w' o' he => ?_⟩
+      simp only [R.ok.injEq, Prod.mk.injEq] at he
+      obtain ⟨rfl, _⟩ := he
+      exact hw
+    | cons m rest =>
+      simp only
+      have hw1 : (if isA = true then { w with toA := rest } else { w with toB := rest } : World).Good := by
+        cases isA <;> exact hw
+      generalize (if isA = true then { w with toA := rest } else { w with toB := rest } : World) = w1 at hw1 ⊢
+      obtain ⟨h1, h2⟩ := fullInv_recvMsg (w1.party isA) (good_party w1 isA hw1) [] m
+      cases hr : (w1.party isA).recvMsg [] m with
+      | panic => exact absurd hr h1
+      | ok r =>
+        obtain ⟨p, o⟩ := r
+        refine ⟨(fun e => by cases e), fun w' o' he => ?_⟩
+        simp only [R.ok.injEq, Prod.mk.injEq] at he
+        obtain ⟨rfl, _⟩ := he
+        exact good_put w1 isA p _ hw1 (h2 p o hr)
+  | send isA text =>
+    obtain ⟨h1, h2⟩ := fullInv_send (w.party isA) (good_party w isA hw) text
+    simp only [World.step]
+    cases hr : (w.party isA).send text with
+    | panic => exact absurd hr h1
+    | ok r =>
+      obtain ⟨p, o⟩ := r
+      refine ⟨(fun e => by cases e), fun w' o' he => ?_⟩
+      simp only [R.ok.injEq, Prod.mk.injEq] at he
+      obtain ⟨rfl, _⟩ := he
+      exact good_put w isA p _ hw (h2 p o hr)
+  | endc isA =>
+    obtain ⟨h1, h2⟩ := fullInv_endConv (w.party isA) (good_party w isA hw)
+    simp only [World.step]
+    cases hr : (w.party isA).endConv with
+    | panic => exact absurd hr h1
+    | ok r =>
+      obtain ⟨p, o⟩ := r
+      refine ⟨(fun e => by cases e), fun w' o' he => ?_⟩
+      simp only [R.ok.injEq, Prod.mk.injEq] at he
+      obtain ⟨rfl, _⟩ := he
+      exact good_put w isA p _ hw (h2 p o hr)
+  | auth isA q s =>
+    obtain ⟨h1, h2⟩ := authenticate_no_panic (w.party isA) (good_party w isA hw) q s
+    simp only [World.step]
+    cases hr : (w.party isA).authenticate q s with
+    | panic => exact absurd hr h1
+    | ok r =>
+      obtain ⟨p, o⟩ := r
+      refine ⟨(fun e => by cases e), fun w' o' he => ?_⟩
+      simp only [R.ok.injEq, Prod.mk.injEq] at he
+      obtain ⟨rfl, _⟩ := he
+      exact good_put w isA p _ hw (h2 p o hr)
+  | inject isA b dg =>
+    obtain ⟨h1, h2⟩ := fullInv_recvBytes (w.party isA) (good_party w isA hw) { qdg := dg } b
+    simp only [World.step]
+    cases hr : (w.party isA).recvBytes { qdg := dg } b with
+    | panic => exact absurd hr h1
+    | ok r =>
+      obtain ⟨p, o⟩ := r
+      refine ⟨(fun e => by cases e), fun w' o' he => ?_⟩
+      simp only [R.ok.injEq, Prod.mk.injEq] at he
+      obtain ⟨rfl, _⟩ := he
+      exact good_put w isA p _ hw (h2 p o hr)
+
+/-- **no API call of either party ever panics**, in any history of two conversations: queries, message
+    deliveries in any order, Send / End / Authenticate calls, and arbitrary bytes injected by an
+    attacker at any point -/
+theorem world_never_panics (steps : List Step) : none ∉ World.run {} steps := by
+  have : ∀ (steps : List Step) (w : World), w.Good → none ∉ w.run steps := by
+    intro steps
+    induction steps with
+    | nil => intro w _ h; cases h
+    | cons s ss ih =>
+      intro w hw
+      obtain ⟨h1, h2⟩ := step_good w hw s
+      unfold World.run
+      cases hr : w.step s with
+      | panic => exact absurd hr h1
+      | ok r =>
+        obtain ⟨w', o⟩ := r
+        simp only [List.mem_cons, not_or]
+        exact ⟨(fun e => by cases e), ih w' (h2 w' o hr)⟩
+  exact this steps _ ⟨fullInv_init 0, fullInv_init 1⟩
+
+
+
+/-! ## modified data messages, SMP outcomes -/
+
+/-- **modified data messages are rejected.** A data message whose authenticated bytes or MAC differ from
+    everything a modelled party produced (`g = none`: under the MAC assumption its MAC does not verify)
+    delivers no text, changes no security state, triggers no reply, and is reported as an error unless
+    its IGNORE_UNREADABLE flag is set. (It may make `calcDataKeys` fill or release a cache slot.) -/
+theorem modified_data_rejected (p : Party) (ok ign : Bool) (skid rkid : Nat) :
+    ∃ q o, p.recv (.data ok ign skid rkid none) = .ok (q, o) ∧
+      o.out = [] ∧ o.send = [] ∧ o.change = 0 ∧ q.st = p.st ∧ akeView q = akeView p ∧
+      (p.st = .enc → ign = false → o.err = true) := by
+  simp only [Party.recv]
+  split
+  · rename_i h
+    exact ⟨_, _, rfl, rfl, rfl, rfl, rfl, rfl, fun he => absurd he h⟩
+  split
+  · exact ⟨_, _, rfl, rfl, rfl, rfl, rfl, rfl, fun _ _ => rfl⟩
+  have hk := keeps_calc p rkid skid
+  have hst : (p.calcDataKeys rkid skid).1.st = p.st := by
+    unfold Party.calcDataKeys; repeat' split
+    all_goals rfl
+  cases hc : p.calcDataKeys rkid skid with
+  | mk q oi =>
+    rw [hc] at hk hst
+    cases oi with
+    | none => exact ⟨_, _, rfl, rfl, rfl, rfl, hst, hk.view, fun _ hi => by simp [hi]⟩
+    | some i => exact ⟨_, _, rfl, rfl, rfl, rfl, hst, hk.view, fun _ hi => by simp [hi]⟩
+
+/-- a replayed genuine data message (same counter) is rejected as well: `counter regressed` -/
+theorem replay_rejected (p : Party) (i : Nat) (d : DataMsg)
+    (h : bytesGt d.ctr (p.slots.getD i {}).lastCtr = false) :
+    p.acceptData i d = .ok (p, { enc := true, err := true }) := by
+  unfold Party.acceptData
+  rw [h]
+  rfl
+
+/-- the script of an SMP run after an AKE: A starts with secret `sa`, B answers with `sb` -/
+def smpScript (sa sb : Bytes) : List Step :=
+  [.query true [1], .deliver false, .deliver true, .deliver false, .deliver true,
+   .auth true [] sa, .deliver false, .auth false [] sb, .deliver true, .deliver false, .deliver true,
+   .deliver false]
+
+def changesOf (obs : List (Option Obs)) : List Nat :=
+  obs.filterMap (fun o => match o with | some (.recv o _ _) => if o.change = 0 then none else some o.change | _ => none)
+
+set_option maxRecDepth 100000 in
+/-- **SMP on the symbolic model**: with equal secrets both sides report SMPComplete (3) — after NewKeys (1)
+    on both sides and SMPSecretNeeded (2) at B; with different secrets B and then A report SMPFailed (4),
+    and B again when A's abort arrives. (In the model the zero-knowledge comparison *is* secret
+    equality; for the real code this is checked differentially.) -/
+theorem smp_outcomes :
+    changesOf (World.run {} (smpScript [1, 2] [1, 2])) = [1, 1, 2, 3, 3] ∧
+    changesOf (World.run {} (smpScript [1, 2] [1, 3])) = [1, 1, 2, 4, 4, 4] := by
+  decide
+
+
+/-- non-vacuity of `recv_no_panic` / `inv_recv`: the invariant holds initially and in a non-trivial state
+    (after a query the party awaits a DH key and holds a commit) -/
+example : Inv { side := 0 } ∧ ∃ p' o, ({ side := 0 } : Party).recv (.query [1]) = .ok (p', o) ∧ Inv p' ∧
+    p'.auth = .awKey := by
+  refine ⟨inv_init 0, ?_⟩
+  cases h : ({ side := 0 } : Party).recv (.query [1]) with
+  | panic => exact absurd h (recv_no_panic _ (inv_init 0) _)
+  | ok r =>
+    obtain ⟨p', o⟩ := r
+    refine ⟨p', o, rfl, inv_recv _ (inv_init 0) _ p' o h, ?_⟩
+    simp only [Party.recv, Party.genCommit, Party.newId, Party.reset, R.ok.injEq, Prod.mk.injEq] at h
+    rw [← h.1]
+
+/-- non-vacuity of `modified_data_rejected`'s error clause: an encrypted party exists (see the
+    `data_roundtrip` example) and rejects a forged message with an error -/
+example : ∀ p : Party, p.st = .enc → ∃ q o, p.recv (.data true false 1 1 none) = .ok (q, o) ∧ o.err = true := by
+  intro p hp
+  obtain ⟨q, o, h, _, _, _, _, _, he⟩ := modified_data_rejected p true false 1 1
+  exact ⟨q, o, h, he hp rfl⟩
+
 end XC.C47
